@@ -64,12 +64,62 @@ LINKDEV = {"reverse", "closed", "cv", "K5", "D100", "D600", "C60", "C140", "L50"
            "ppump", "valve", "piecewise", "hyd15all", "small", "near_max", "near_min", "elev_high", "pdd", "revorder"}
 
 
+EDITS = [
+    (HP("x", "J1", "J2", [[0.05, 30.0]]), [("curve_points", [[0.05, 45.0]]), ("curve_points", [[0.0, 40.0], [0.05, 32.0], [0.1, 12.0]]), ("curve_name", [[0.02, 55.0]])]),
+    (HP("x", "J1", "J2", [[0.0, 40.0], [0.1, 10.0]]), [("curve_points", [[0.0, 60.0], [0.12, 5.0]]), ("curve_points_inplace", [[0.0, 60.0], [0.12, 5.0]])]),
+    (HP("x", "J1", "J2", [[0.0, 40.0], [0.05, 32.0], [0.1, 12.0]]), [("curve_points", [[0.0, 60.0], [0.03, 50.0], [0.06, 20.0]]), ("curve_name", [[0.05, 30.0]])]),
+    (PP("x", "J1", "J2", 5000.0), [("power", 50000.0)]),
+    (P("x", "J1", "J2", L=500.0, D=0.3, C=100.0, K=0.0), [("diameter", 0.1), ("roughness", 60.0), ("length", 2000.0), ("minor_loss", 5.0), ("check_valve", True)]),
+    (V("x", "J1", "J2", "TCV", 50.0, D=0.3, K=0.0), [("initial_setting", 500.0), ("minor_loss", 5.0), ("diameter", 0.1)]),
+    (V("x", "J1", "J2", "PRV", 20.0, D=0.3, K=0.0), [("initial_setting", 45.0)]),
+    (V("x", "J1", "J2", "FCV", 0.05, D=0.3, K=0.0), [("initial_setting", 0.001)]),
+]
+
+
+def apply_edit(wn, s, ed):
+    """performs the edit on the model through the public API and returns the spec that describes the edited model"""
+    kind, val = ed
+    s2 = clone(s)
+    x, l = link(s2, "x"), wn.get_link("x")
+    if kind == "curve_points":
+        wn.get_curve(l.pump_curve_name).points = [tuple(p) for p in val]
+        x["curve"] = val
+    elif kind == "curve_points_inplace":
+        pts = wn.get_curve(l.pump_curve_name).points
+        pts[:] = [tuple(p) for p in val]
+        x["curve"] = val
+    elif kind == "curve_name":
+        wn.add_curve("edited", "HEAD", [tuple(p) for p in val])
+        l.pump_curve_name = "edited"
+        x["curve"] = val
+    elif kind == "power":
+        l.power = val; x["power"] = val
+    elif kind in ("diameter", "roughness", "length", "minor_loss"):
+        setattr(l, kind, val); x[{"diameter": "D", "roughness": "C", "length": "L", "minor_loss": "K"}[kind]] = val
+    elif kind == "check_valve":
+        l.check_valve = val; x["cv"] = val
+    elif kind == "initial_setting":
+        l.initial_setting = val; x["setting"] = val
+    else:
+        raise KeyError(kind)
+    return s2
+
+
 def cases(tier):
     out = []
     for lk in iso_links(tier):
         for dh in DH:
             for hw in ("default", "piecewise"):
                 out.append(iso_spec(lk, dh, hw))
+    # edit-then-rerun: the same model object is simulated, ONE parameter of link x is changed through its public setter, the
+    # model is reset and simulated again; the law is judged with the edited parameters (caches must not survive an edit)
+    for lk, edits in EDITS:
+        for ed in edits:
+            for dh in ((20.0,) if tier == "quick" else (-20.0, 1.0, 20.0, 60.0)):
+                s = iso_spec(lk, dh, "default")
+                s["edit"] = ed
+                s["id"] = dict(s["id"], edit=ed[0])
+                out.append(s)
     keep = lambda d: d["k"] in LINKDEV
     if tier == "quick":
         out += ns.enumerate_cases(1, keep=keep)
@@ -176,6 +226,20 @@ def check_links(s, r, viol, counts):
 
 
 def run_case(s):
+    if s.get("edit"):
+        wn = build(s)
+        r0 = simulate(s, wn=wn)
+        s = apply_edit(wn, s, s["edit"])
+        wn.reset_initial_values()
+        r = simulate(s, wn=wn)
+        if r.error or r0.error:
+            return {"viol": [], "nontrivial": False, "outcome": "not-converged", "counts": {"not_converged": 1}}
+        viol, counts = [], {"edit_reruns": 1}
+        check_links(s, r, viol, counts)
+        for v in viol:
+            v["key"] = "after-edit:%s:%s" % (s["edit"][0], v["key"]); v["what"] = "after a run, the edit %s and a second run: %s" % (s["edit"], v["what"])
+        changed = abs(float(r.link["flowrate"]["x"][0]) - float(r0.link["flowrate"]["x"][0])) > 1e-7
+        return {"viol": viol, "nontrivial": changed, "outcome": "edit:%s:%s" % (link(s, "x")["t"], "changed" if changed else "same"), "counts": counts}
     r = simulate(s)
     if r.error:
         return {"viol": [], "nontrivial": False, "outcome": "not-converged", "counts": {"not_converged": 1}}
